@@ -31,6 +31,7 @@ type Config struct {
 	QuiesceEvery int
 	Quiesce      func(e *eng.Engine, g *gen.Gen)
 	OnEngine     func(e *eng.Engine)
+	GenesisTime  time.Time // zero = gen.GenesisTime
 }
 
 type Result struct {
@@ -62,11 +63,15 @@ func Exec(c Config) (res Result) {
 	if doc == nil {
 		doc = gen.Genesis(app, c.Genesis)
 	}
-	if err := e.Init(doc, gen.GenesisTime); err != nil {
+	gt := c.GenesisTime
+	if gt.IsZero() {
+		gt = gen.GenesisTime
+	}
+	if err := e.Init(doc, gt); err != nil {
 		res.Err = err
 		return
 	}
-	bt := &BlockTimes{R: rand.New(rand.NewSource(c.Seed ^ 0x5eed)), Now: gen.GenesisTime}
+	bt := &BlockTimes{R: rand.New(rand.NewSource(c.Seed ^ 0x5eed)), Now: gt}
 	now := bt.Next(e.Cur)
 	e.NextBlock(now)
 	refresh := func() { g.Observe(e.Cur, e.App.Header.Time) }
